@@ -2510,6 +2510,11 @@ func (r *RIB) Flush(networkInstances []string) error {
 		}
 
 		for _, id := range backupNHGs {
+			// A backup NHG may be shared by several NHGs, or may never have
+			// been installed: there is nothing (more) to remove in that case.
+			if _, ok := niR.r.Afts.NextHopGroup[id]; !ok {
+				continue
+			}
 			delNHG(id)
 		}
 
